@@ -563,7 +563,11 @@ int main(int argc, char** argv) {
     case CSR_THREADS: comp = "LC_CSR_Graph thread ranges"; variant = graphKindName(en.a); break;
     }
     H.hangKey = "C13:" + comp + ":hang";
-    H.begin(k, J().kv("component", comp).kv("family", fam).kv("variant", variant).kv("maxThreads", maxT).str());
+    // params.component (used by the driver in crash keys) names the graph flavour too; oracle keys use `comp`
+    std::string pcomp = comp;
+    if (en.comp == UR_GRAPH && en.fam == RAND && en.a == 4)
+      pcomp += "(graph with abstract locks)";
+    H.begin(k, J().kv("component", pcomp).kv("family", fam).kv("variant", variant).kv("maxThreads", maxT).str());
     Acc A(H, comp);
 
     switch (en.comp) {
